@@ -15,6 +15,7 @@ static std::vector<Tmpl> templates() {
     {"m.\"n\".o@h.dom", {{"m.n.o", "h.dom"}}}, {"p@[1.2.3.4]", {{"p", "[1.2.3.4]"}}}, {"Group: q@h.dom, r@i.dom;", {{"q", "h.dom"}, {"r", "i.dom"}}}, {"Undisclosed: ;", {}},
     {"Folded\n\tName <s@h.dom>", {{"s", "h.dom"}}}, {"t@h.dom u@i.dom", {{"t", "h.dom"}, {"u", "i.dom"}}}, {"\"v\\\"w\"@h.dom", {{"v\"w", "h.dom"}}}, {"John (Johnny) Doe <x@h.dom>", {{"x", "h.dom"}}},
     {"y@sub.h+", {{"y", "sub.h+"}}}, {"Z@H.DOM", {{"Z", "H.DOM"}}}, {"\"a@b\"@h.dom", {{"a@b", "h.dom"}}}, {"dd@h.dom (a \\) b)", {{"dd", "h.dom"}}},
+    {"aa@h.dom (Alice) bb@i.dom", {{"aa", "h.dom"}, {"bb", "i.dom"}}},   // the comma is missing and a comment sits in the gap
   };
 }
 static std::string rewrite(const Box &b) {
@@ -44,6 +45,17 @@ static std::vector<Case> make_cases(const Config &cfg) {
       switch (m) { case 0: c.args = {"-h"}; c.want_env = hdrrc; break; case 1: c.args = {"-a", "arg1@h.dom", "arg2"}; c.want_env = argrc; break; case 2: c.args = {"-H", "arg1@h.dom", "arg2"}; c.want_env = hdrrc; for (auto &x : argrc) c.want_env.push_back(x); break;
         case 3: c.args = {}; c.want_env = hdrrc; break; case 4: c.args = {"arg1@h.dom", "arg2"}; c.want_env = argrc; break; }
       c.name = "To [" + T[a].text + "] Bcc [" + T[b].text + "] cc [" + T[(a + b) % n].text + "] mode " + std::to_string(m); v.push_back(c); }
+  } else if (fam == "resent") {
+    // qmail-inject(8): if the message carries any Resent- field, the recipients come from Resent-To/Resent-Cc/Resent-Bcc instead of To/Cc/Bcc
+    // (and Resent-Bcc is removed); every single Resent- field and every pair of them, on top of ordinary To/Cc/Bcc fields
+    struct RF { const char *name; const char *value; int rcpt; }; static const RF rf[] = { {"Resent-Sender", "rs@h.dom", 0}, {"Resent-From", "rf@h.dom", 0}, {"Resent-Reply-To", "rr@h.dom", 0}, {"Resent-To", "", 1}, {"Resent-Cc", "rc@h.dom", 2}, {"Resent-Bcc", "rb@h.dom", 3},
+                                                                                 {"Resent-Date", "1 Jan 2001 00:00:00 -0000", 0}, {"RESENT-MESSAGE-ID", "<rid@h.dom>", 0} };
+    std::vector<std::vector<int>> sets; for (int a = 0; a < 8; a++) { sets.push_back({a}); for (int b = a + 1; b < 8; b++) sets.push_back({a, b}); }
+    for (auto &st : sets) for (int a : {0, 4, 12}) for (int b : {1, 15}) for (int pos = 0; pos < 2; pos++) {
+      Case c; std::string h, rh; std::vector<std::string> ign; addlist({a}, ", ", "To", &h, &ign); h += "Cc: c@h.dom\nBcc: hidden@h.dom\n";
+      for (int f : st) { if (rf[f].rcpt == 1) { addlist({b}, ", ", rf[f].name, &rh, &c.want_env); for (auto &bx : T[b].boxes) c.want_tocc.push_back(rewrite(bx)); }
+                         else { rh += std::string(rf[f].name) + ": " + rf[f].value + "\n"; if (rf[f].rcpt) { c.want_env.push_back(rf[f].value); if (rf[f].rcpt == 2) c.want_tocc.push_back(rf[f].value); } } }
+      c.message = (pos ? rh + h : h + rh) + body; c.args = {"-h"}; c.name = "resent"; for (int f : st) c.name += std::string(" ") + rf[f].name; c.name += std::string(pos ? " before" : " after") + " To [" + T[a].text + "]" + " Resent-To [" + T[b].text + "]"; v.push_back(c); }
   } else {
     // -f sender forms and QMAILINJECT letters that do not change recipients
     const char *snd[] = {"s@h.dom", "s", "s@h", "s@h+", "q s@h.dom", ""};   /* -f takes the raw address */
